@@ -151,7 +151,7 @@ def _each_file(work, outs, suffix, make_src, cmd):
 
     def one(job):
         i, p = job
-        rc, _ = _run(cmd + [str(p)], cwd=d, timeout=120)
+        rc, _ = _run(cmd + [str(p)], cwd=d, timeout=900)
         return i, rc == 0
 
     with ThreadPoolExecutor(max_workers=min(16, os.cpu_count() or 1)) as ex:
